@@ -1,7 +1,8 @@
 (** Evaluator glue for C16: runs the ClientID model on what the harness ran
     the real code on. *)
-From Coq Require Import List.
+From Coq Require Import List NArith ZArith.
 From AGH Require Import Base.Run Base.Bytes Base.Dom Base.PathClean Model.ClientID Model.CertNames.
+From AGH Require Import Model.GoLower Model.CertPrepare.
 From AGH Require Import Model.ClientIDCache Model.ClientIDReconf Model.TLSSettings.
 Import ListNotations.
 Local Open Scope N_scope.
@@ -60,6 +61,17 @@ Inductive tstep :=
                (obs_out : N) (obs_changed : bool) (obs_conf : tls_settings) (obs_serve : bool)
                (dns_known : bool) (obs_dns : option (bytes * bool)).
 
+(** One step on one Server value (round 5).  [PPrepare]: Server.Prepare with
+    these TLS settings (certificate present, a DoT/DoQ address present, strict,
+    the certificate's SAN DNS names in certificate order, CommonName, whether
+    it has IP SANs); observed: the new proxy has a tls.Config, s.hasIPAddrs.
+    [PHello]: the installed GetCertificate (directly or inside a real TLS
+    handshake) for this server name; observed: certificate handed out. *)
+Inductive pstep :=
+  | PPrepare (has_cert listen strict : bool) (dns : list bytes) (cn : bytes) (has_ip : bool)
+             (obs_installed obs_has_ip : bool)
+  | PHello (sni : bytes) (v6 : bool) (obs : bool).
+
 Inductive case :=
   (* Server.clientIDFromDNSContext: protocol, configured name, strict, TLS/QUIC
      connection name, HTTP request (path, TLS name, Host); observed code, id *)
@@ -92,7 +104,13 @@ Inductive case :=
   | CHist (host : bytes) (strict : bool) (steps : list hstep)
   (* a sequence of configure calls on one tlsManager: web and DNS port of the
      configuration, servePlainDNS and the settings at the start *)
-  | CTls (web dns : N) (serve0 : bool) (conf0 : tls_settings) (steps : list tstep).
+  | CTls (web dns : N) (serve0 : bool) (conf0 : tls_settings) (steps : list tstep)
+  (* strings.ToLower *)
+  | CLower (s obs : bytes)
+  (* unicode.CaseRanges of the running toolchain: (Lo, Hi, Delta[LowerCase]) *)
+  | CCaseTab (tab : list (N * N * Z))
+  (* Prepare calls and handshakes on one Server *)
+  | CPrep (steps : list pstep).
 
 Definition eqb_res (r : N * bytes) (c : N) (id : bytes) : bool :=
   (fst r =? c) && eqb_bytes (snd r) id.
@@ -171,6 +189,38 @@ Fixpoint tls_first_bad (k : N) (m : mgr) (steps : list tstep) : N * bytes :=
       else (10 * k + out_code out, t_server_name (m_conf m'))
   end.
 
+Definition eqb_range (a b : N * N * Z) : bool :=
+  (fst (fst a) =? fst (fst b)) && (snd (fst a) =? snd (fst b)) && Z.eqb (snd a) (snd b).
+
+Definition mk_conf (has_cert listen strict : bool) (dns : list bytes) (cn : bytes) (has_ip : bool) : tls_conf :=
+  {| tc_has_cert := has_cert; tc_listen := listen; tc_strict := strict;
+     tc_cert := {| c_dns_names := dns; c_common_name := cn |}; tc_cert_has_ip := has_ip |}.
+
+Fixpoint prep_ok (st : tls_state) (steps : list pstep) : bool :=
+  match steps with
+  | nil => true
+  | PPrepare hc li strict dns cn ip oi oip :: r =>
+      let st' := prepare_tls false st (mk_conf hc li strict dns cn ip) in
+      Bool.eqb (ts_installed st') oi && Bool.eqb (ts_has_ip st') oip && prep_ok st' r
+  | PHello sni v6 obs :: r =>
+      ts_installed st && Bool.eqb (on_get_certificate st sni v6) obs && prep_ok st r
+  end.
+
+(** 100 * step + (1 installed) + (2 has_ip) for a Prepare, 100 * step + verdict
+    for a handshake; with the name list the model holds there. *)
+Fixpoint prep_first_bad (k : N) (st : tls_state) (steps : list pstep) : N * bytes :=
+  let names st := concat (map (fun n => n ++ (32 :: nil)) (ts_dns_names st)) in
+  match steps with
+  | nil => (0, nil)
+  | PPrepare hc li strict dns cn ip oi oip :: r =>
+      let st' := prepare_tls false st (mk_conf hc li strict dns cn ip) in
+      if Bool.eqb (ts_installed st') oi && Bool.eqb (ts_has_ip st') oip then prep_first_bad (k + 1) st' r
+      else (100 * k + (if ts_installed st' then 1 else 0) + (if ts_has_ip st' then 2 else 0), names st')
+  | PHello sni v6 obs :: r =>
+      if ts_installed st && Bool.eqb (on_get_certificate st sni v6) obs then prep_first_bad (k + 1) st r
+      else (100 * k + (if on_get_certificate st sni v6 then 1 else 0), names st)
+  end.
+
 Definition case_ok (c : case) : bool :=
   match c with
   | CCtx p host strict sni req obs id =>
@@ -192,6 +242,9 @@ Definition case_ok (c : case) : bool :=
   | CHist host strict steps => hist_ok (srv_init host strict) steps
   | CTls web dns serve0 conf0 steps =>
       tls_ok {| m_conf := conf0; m_serve_plain := serve0; m_web_port := web; m_dns_port := dns |} steps
+  | CLower s obs => eqb_bytes (go_to_lower s) obs
+  | CCaseTab tab => eqb_list eqb_range tab case_ranges
+  | CPrep steps => prep_ok tls_state0 steps
   end.
 
 Definition mismatches := Base.Run.mismatches case_ok.
@@ -219,4 +272,7 @@ Definition explain (c : case) : N * bytes :=
   | CHist host strict steps => hist_first_bad 1 (srv_init host strict) steps
   | CTls web dns serve0 conf0 steps =>
       tls_first_bad 1 {| m_conf := conf0; m_serve_plain := serve0; m_web_port := web; m_dns_port := dns |} steps
+  | CLower s _ => (0, go_to_lower s)
+  | CCaseTab tab => (N.of_nat (length case_ranges), nil)
+  | CPrep steps => prep_first_bad 1 tls_state0 steps
   end.
